@@ -41,6 +41,8 @@ def inputs_for(kind, d, limits):
     if limits == "box":
         inp["lower"] = np.array([-1.0, -1.5][:d])
         inp["upper"] = np.array([1.2, 0.9][:d])
+    if limits == "int-start" and kind != "EnsembleSampler":
+        inp["start"] = np.array([1, 0][:d])  # integer dtype is a legal way to write a starting point
     if kind == "EnsembleSampler":
         inp["start"] = np.array([[0.3, -0.2], [1.0, 0.4], [-0.6, 0.8], [0.1, -0.9]])[:, :d].copy()
         if limits == "int-dtype":
@@ -265,6 +267,24 @@ def ev_shared(case):
             if bad:
                 add_fail(f"inputs/{label}/caller-array-modified", f"{bad} changed during schedule {''.join(sched)}", schedule="".join(sched))
             seen.add((cnt["A"], cnt["B"]))
+        if kind != "EnsembleSampler":
+            # a hand-made exchange of the last points of the two chains inside one process, through the public
+            # get_last / replace_last hooks (what tempering_process does across processes), then one more step each
+            with lib("manual-exchange"):
+                xa, xb = A.get_last(), B.get_last()
+                la, lb = A.probs[-1], B.probs[-1]
+                wa, wb = np.array(xa, dtype=float, copy=True), np.array(xb, dtype=float, copy=True)
+                A.replace_last(xb)
+                A.probs[-1] = lb
+                B.replace_last(xa)
+                B.probs[-1] = la
+            for w, ch_, want in (("A", A, wb), ("B", B, wa)):
+                got = np.asarray(ch_.get_last(), dtype=float)
+                if not np.array_equal(got, want):
+                    add_fail(f"shared/{label}/manual-exchange-installs-wrong-point", f"schedule {''.join(sched)}: chain {w} holds {got.tolist()}, partner had {want.tolist()}", schedule="".join(sched))
+                elif abs(ch_.probs[-1] - post(got) / T) > 1e-12 * (1 + abs(ch_.probs[-1])):
+                    add_fail(f"shared/{label}/probability-not-posterior-after-manual-exchange", f"chain {w}", schedule="".join(sched))
+            n += 1
         tags.add(f"shared:{label}:T={T}")
     return {"fails": fails, "n": n, "states": len(seen), "transitions": n, "tags": tags}
 
@@ -278,13 +298,80 @@ def ev_exchange(case):
 EVALUATORS = {"history": ev_history, "shared": ev_shared, "exchange": ev_exchange}
 
 
+class _Boom(RuntimeError):
+    pass
+
+
+def ev_faults(case):
+    """The user's posterior raises at its k-th evaluation inside an operation and the user catches the exception: the
+    sampler must be left in a state in which stored probabilities still belong to stored samples and lengths agree,
+    and it must be usable afterwards."""
+    kind, T, limits, d, op = case["sampler"], case["T"], case["limits"], case["d"], case["op"]
+    label = f"{kind}/{limits or 'free'}"
+    fails, fkeys, tags = [], set(), set()
+    n = 0
+
+    def add_fail(key, what, **kw):
+        if key not in fkeys:
+            fkeys.add(key)
+            fails.append(fail(key, what, config=case, **kw))
+
+    for k in range(1, case["kmax"] + 1):
+        state = {"armed": False, "count": 0}
+
+        def fn(t):
+            if state["armed"]:
+                state["count"] += 1
+                if state["count"] == k:
+                    raise _Boom("posterior failed")
+            return post(t)
+
+        inp = inputs_for(kind, d, limits)
+        with lib("construct"):
+            ch = build(kind, inp, T, limits, fn=fn)
+        ch.rng = np.random.default_rng(5 + k)
+        for i, p in enumerate(getattr(ch, "params", [])):
+            p.rng = np.random.default_rng(50 + 7 * k + i)
+        with lib("warm-up"):
+            apply_op(ch, kind, "step")
+        state["armed"] = True
+        raised = False
+        try:
+            apply_op(ch, kind, op)
+        except _Boom:
+            raised = True
+        except Exception as e:  # the library turned the user's exception into something else: still only the state matters
+            raised = True
+        state["armed"] = False
+        n += 1
+        if not raised:
+            tags.add(f"faults:{label}:{op}:k-beyond-the-operation")
+        else:
+            tags.add(f"faults:{label}:{op}:raised")
+        ctxinfo = {"fault_at_evaluation": k, "op": op}
+        invariant(ch, kind, T, label + "/after-posterior-exception", add_fail, ctxinfo)
+        try:
+            with lib("step-after-exception"):
+                apply_op(ch, kind, "step")
+        except Exception as e:
+            add_fail(f"faults/{label}/sampler-unusable-after-posterior-exception", f"fault at evaluation {k} of {op}: {e}"[:300], **ctxinfo)
+            continue
+        invariant(ch, kind, T, label + "/after-posterior-exception+step", add_fail, ctxinfo)
+    return {"fails": fails, "n": n, "states": n, "transitions": 2 * n, "tags": tags}
+
+
+EVALUATORS["faults"] = ev_faults
+
+
 def run(ck):
     depth = 3 if ck.quick else 4
     bound = 2 if ck.quick else 3
     cases = []
     for kind in SAMPLERS:
-        for limits in (None, "box", "int-dtype", "max-attempts-1"):
+        for limits in (None, "box", "int-dtype", "max-attempts-1", "int-start"):
             if limits in ("int-dtype", "max-attempts-1") and kind != "EnsembleSampler":
+                continue
+            if limits == "int-start" and kind == "EnsembleSampler":
                 continue
             for T in (1.0, 2.5):
                 if kind == "EnsembleSampler" and T != 1.0:
@@ -317,6 +404,8 @@ def run(ck):
                     continue
                 sc.append(dict(sampler=kind, T=T, limits=limits, d=2, length=4 if ck.quick else 6))
     ck.run_cases("shared", sc, chunk=1)
+    ck.run_cases("faults", [dict(sampler=kind, T=T, limits=lim, d=2, op=op, kmax=10 if ck.quick else 25) for kind in SAMPLERS for lim in (None, "box")
+                            for T in ((1.0,) if kind == "EnsembleSampler" else (1.0, 2.5)) for op in ("step", "adv3")], chunk=2)
     # points installed by a parallel-tempering exchange (shared with C08's exchange evaluator)
     ck.run_cases("exchange", [dict(chains=k, N=N, seed=1 + ck.seed, presteps=pre, ladder=lad)
                               for k, N, pre, lad in (("GibbsChain", 2, 1, "sorted"), ("GibbsChain", 3, 2, "unsorted"), ("HamiltonianChain", 3, 1, "sorted"),
